@@ -210,7 +210,7 @@ pub fn run(ctx: &mut Ctx) {
     for (n, ok) in r9::selftest(ctx.shard == 0) {
         ctx.selftest(&n, ok);
     }
-    ctx.require(&["annex_kat", "honest_keys_equal", "tampered_keys_differ", "responder_rejects_offcurve_RA", "initiator_rejects_offcurve_RB", "tamper=RaOther", "tamper=RbOther", "tamper=RaBitflipOnCurve", "tamper=RbNeg", "klen=1", "klen=128", "parties_have_public_master_key_only", "sparse_ephemeral_scalars"]);
+    ctx.require(&["annex_kat", "honest_keys_equal", "tampered_keys_differ", "responder_rejects_offcurve_RA", "initiator_rejects_offcurve_RB", "tamper=RaOther", "tamper=RbOther", "tamper=RaBitflipOnCurve", "tamper=RbNeg", "klen=1", "klen=128", "parties_have_public_master_key_only", "sparse_ephemeral_scalars", "kdf_direct"]);
     let pr = r9::params();
     let mut paux = ctx.prng("aux");
     if ctx.shard == 0 {
@@ -220,6 +220,27 @@ pub fn run(ctx: &mut Ctx) {
         ctx.class("annex_kat");
         history(ctx, &ke, b"Alice", b"Bob", 16, &ra, &rb, Tamper::None, &mut paux);
         ctx.sample(json!({"annex": {"ke": "0002E65B..E31F", "ida": "Alice", "idb": "Bob", "klen": 16, "SK": "C5C13A8F59A97CDEAE64F16A2272A9E7"}}));
+    }
+    // --- the SM9 KDF itself (hook wrapper): every klen 1..=300 plus block-counter boundaries
+    {
+        let mut pk = ctx.prng("kdf");
+        let mut idx = 0u64;
+        for klen in (1..=300usize).chain([8160usize, 8161, 8192, 65536 * 32, 65536 * 32 + 5]) {
+            idx += 1;
+            let zl = pk.range(0, 100);
+            let z = pk.bytes(zl);
+            if !ctx.mine(idx) {
+                continue;
+            }
+            ctx.eval();
+            ctx.class("kdf_direct");
+            ctx.distinct("kdf", &[&z, &(klen as u32).to_be_bytes()]);
+            let e = crate::refs::sm3::kdf(&z, klen);
+            match guard(|| gm_sm9::verif_hooks::kdf(&z, klen)) {
+                Outcome::Ret(v) if v == e => {}
+                o => ctx.violation(&format!("kdf:klen_mod32={}:{}", klen % 32, if o.is_ret() { "wrong-output" } else { o.class() }), json!({"z": hx(&z), "klen": klen})),
+            }
+        }
     }
     let n = ctx.n(64, 3000);
     let mut prng = ctx.prng("hist");
